@@ -578,6 +578,23 @@ def check_path_laws(rep, cls, roots, s, ri, dd, dr, p, stats):
             fail('confined', 'realised %r is outside %r' % (real, base))
         if p.realize({p.root: '$(v)'}, localize=False) != ('$(v)/' + p.suffix if p.suffix else '$(v)'):
             fail('realize_join', 'realize() = %r' % (p.realize({p.root: '$(v)'}, localize=False),))
+        # the hypothesis of C12_realize_join (base value not ending in a separator) probed on the real code: a base
+        # directory that is the file-system root (string- or path-valued); bounded number of probes per run
+        if stats.get('probe:base-fs-root', 0) < 60:
+            stats['probe:base-fs-root'] = stats.get('probe:base-fs-root', 0) + 1
+            for bval in ('/', cls('/', roots[2])):
+                real0 = p.string({p.root: bval})
+                if cls.__name__ == 'WindowsPath':
+                    real0 = real0.replace('\\', '/')
+                want0 = posixpath.join('/', p.suffix) if p.suffix else '/'
+                if real0 != want0:
+                    fail('realize_join', 'string() against the base directory / gives %r, ordinary joining %r' % (real0, want0),
+                         ('realize-base-ends-with-separator',))
+        # executable form: ./ exactly for a bare name when the root has no value
+        exe = p.realize({p.root: None}, executable=True, localize=False)
+        want_exe = p.suffix if '/' in p.suffix else ('./' + p.suffix if p.suffix else '.')
+        if not p.destdir and exe != want_exe:
+            fail('realize_join', 'realize(executable=True) = %r, expected %r' % (exe, want_exe))
     # L4 parent / append / basename, L10 splitleaf
     if p.suffix:
         par = attempt('parent_append', p.parent)
